@@ -700,6 +700,7 @@ class Generator:
         if spec.valid and spec.opts.get("unwrap", "rt") == "rt":
             body = self.rw_unwrap(body, spec)
         body = self.rw_ptr_swap(body, spec)
+        body = self.rw_bool_then(body)
         body = self.rw_ref_wild(body)
         body = self.rw_unsafe_stubs(body, spec)
         # descending k: replacing an earlier occurrence must not renumber the later ones
@@ -831,6 +832,49 @@ class Generator:
         for t in toks:
             t.line = t.line - 1 + l0
         return toks
+
+    def rw_bool_then(self, body):
+        """R17: `(COND).then(move || EXPR)` -> `if COND { Some(EXPR) } else { None }` (std's definition of bool::then)."""
+        i = 0
+        while i < len(body):
+            t = body[i]
+            if t.kind == "ident" and t.text == "then":
+                a = prev_code(body, i)
+                b = next_code(body, i)
+                if a >= 0 and body[a].text == "." and b < len(body) and body[b].text == "(":
+                    rp = prev_code(body, a)
+                    if rp >= 0 and body[rp].text == ")":
+                        # find the matching "(" of the receiver
+                        depth = 0
+                        lp = None
+                        for x in range(rp, -1, -1):
+                            if body[x].kind == "punct":
+                                if body[x].text in ")]}":
+                                    depth += 1
+                                elif body[x].text in "([{":
+                                    depth -= 1
+                                    if depth == 0:
+                                        lp = x
+                                        break
+                        q = match_close_full(body, b)
+                        c = next_code(body, b)
+                        if c < len(body) and body[c].text == "move":
+                            c = next_code(body, c)
+                        c2 = next_code(body, c)
+                        # a receiver that is a call `f(..)` is not a parenthesised bool expression
+                        pre = prev_code(body, lp) if lp is not None else -1
+                        is_paren_expr = lp is not None and (pre < 0 or body[pre].kind != "ident" or body[pre].text in ("return", "in", "else"))
+                        if is_paren_expr and body[c].text == "|" and body[c2].text == "|":
+                            cond = text_of(body[lp + 1:rp])
+                            expr = text_of(body[c2 + 1:q])
+                            rep = synth("if %s { Some(%s) } else { None }" % (cond.strip(), expr.strip()), body[lp].line)
+                            body = body[:lp] + [rep] + body[q + 1:]
+                            self.count("R17-bool-then-inline")
+                            body = self.relex(text_of(body), body)
+                            i = 0
+                            continue
+            i += 1
+        return body
 
     def rw_ref_wild(self, body):
         out = []
@@ -980,6 +1024,39 @@ class Generator:
                 afterloop = ""
                 if "\n+++\n" in inv + "\n":
                     inv, afterloop = (inv + "\n").split("\n+++\n", 1)
+                if "zip" in flags:
+                    # R18: for (a, b) in A.zip(B) { BODY }  -- std's Zip::next is `let x = a.next()?; let y = b.next()?; Some((x, y))`
+                    etoks = hdr[cut + 1:]
+                    zpos = None
+                    d = 0
+                    for x, t in enumerate(etoks):
+                        if t.kind == "punct" and t.text in "([{":
+                            d += 1
+                        elif t.kind == "punct" and t.text in ")]}":
+                            d -= 1
+                        elif d == 0 and t.kind == "ident" and t.text == "zip" and x > 0 and etoks[prev_code(etoks, x)].text == ".":
+                            zpos = x
+                    ptoks = [t for t in hdr[:cut] if is_code(t)]
+                    if zpos is None or len(ptoks) < 5 or ptoks[0].text != "(" or ptoks[-1].text != ")":
+                        raise ExtractError("cannot desugar zip for-loop #%d in %s" % (k, spec.name))
+                    zo = next_code(etoks, zpos)
+                    zc = match_close_full(etoks, zo)
+                    if any(is_code(t) for t in etoks[zc + 1:]):
+                        raise ExtractError("cannot desugar zip for-loop #%d in %s (trailing adaptor)" % (k, spec.name))
+                    ea = text_of(etoks[:prev_code(etoks, zpos)]).strip()
+                    eb = text_of(etoks[zo + 1:zc]).strip()
+                    parts = split_args(ptoks[1:-1])
+                    if len(parts) != 2:
+                        raise ExtractError("cannot desugar zip for-loop #%d in %s (pattern)" % (k, spec.name))
+                    pa, pb = text_of(parts[0]).strip(), text_of(parts[1]).strip()
+                    itb = flags["zip"]
+                    pre = synth("{ let mut %s = %s; let mut %s = %s;%s\nloop\n%s\n{ match %s.next() { Some(%s) => { match %s.next() { Some(%s) => {"
+                                % (itn, ea, itb, eb, postlet, inv, itn, pa, itb, pb), body[i].line)
+                    pre.kind = "synthhint"
+                    post = synth("} None => { break; } } } None => { break; } } }\n%s }" % afterloop, body[q].line)
+                    body = body[:i] + [pre] + body[j + 1:q] + [post] + body[q + 1:]
+                    self.count("R18-zip-for-desugar")
+                    continue
                 pre = synth("{ let mut %s = %s;%s\nloop\n%s\n{ match %s.%s() { Some(%s) => {" % (itn, expr, postlet, inv, itn, nxt, pat), body[i].line)
                 pre.kind = "synthhint"
                 post = synth("} None => { break; } } }\n%s }" % afterloop, body[q].line)
